@@ -12,7 +12,7 @@ pub fn check(t: &Trace<'_>, out: &mut CaseOut) -> bool {
         let c = &w.conns[ci.idx];
         let s = &c.out;
         if ci.write_zero {
-            // Ok(0) from write breaks the embedded-io contract; not among the quantified faults
+            // the CONNECT itself was answered Ok(0): the handshake failed, nothing else is written
             continue;
         }
         let exempt_from = ci.qos0_cancel_at.unwrap_or(usize::MAX);
